@@ -153,12 +153,20 @@ func c20Helpers() []c20Helper {
 			ap.JSONWriteItemCollectionProp(&b, "p", ap.ItemCollection{x, ap.IRI("https://example.com/i")}, false)
 			ap.JSONWriteItemCollectionValue(&b, ap.ItemCollection{x}, true)
 		}},
-		{name: "CollectionPath.IRI", run: func(x ap.Item, r *c20Result) { ap.Inbox.IRI(x); ap.Likes.IRI(x) }},
-		{name: "CollectionPath.Of", run: func(x ap.Item, r *c20Result) { ap.Inbox.Of(x); ap.Likes.Of(x) }},
+		{name: "CollectionPath.IRI", run: func(x ap.Item, r *c20Result) {
+			for _, cp := range ap.ActivityPubCollections {
+				cp.IRI(x)
+			}
+		}},
+		{name: "CollectionPath.Of", run: func(x ap.Item, r *c20Result) {
+			for _, cp := range ap.ActivityPubCollections {
+				cp.Of(x)
+			}
+		}},
 		{name: "CollectionPath.AddTo", run: func(x ap.Item, r *c20Result) {
-			ap.Inbox.AddTo(x)
-			ap.Likes.AddTo(x)
-			ap.CollectionPath("custom").AddTo(x)
+			for _, cp := range append(ap.CollectionPaths{"custom"}, ap.ActivityPubCollections...) {
+				cp.AddTo(x)
+			}
 		}},
 		{name: "IRI.ItemsMatch", run: func(x ap.Item, r *c20Result) { ap.IRI("https://example.com").ItemsMatch(x) }},
 		{name: "IRIs.Contains", run: func(x ap.Item, r *c20Result) {
@@ -249,18 +257,35 @@ var c20Positions = []c20Pos{
 	{"top", func(x ap.Item) ap.Item { return x }},
 	{"list-member", func(x ap.Item) ap.Item { return ap.ItemCollection{c20Valid(), x, ap.IRI("https://example.com/i")} }},
 	{"object-property", func(x ap.Item) ap.Item {
-		return &ap.Object{ID: "https://example.com/o", Type: ap.NoteType, Attachment: x, AttributedTo: x, Tag: ap.ItemCollection{x}, To: ap.ItemCollection{x}, URL: x, Replies: x}
+		return c20Fill(&ap.Object{ID: "https://example.com/o", Type: ap.NoteType}, x)
+	}},
+	{"actor-property", func(x ap.Item) ap.Item {
+		return c20Fill(&ap.Actor{ID: "https://example.com/p", Type: ap.PersonType}, x)
+	}},
+	{"question-property", func(x ap.Item) ap.Item {
+		return c20Fill(&ap.Question{ID: "https://example.com/q", Type: ap.QuestionType}, x)
 	}},
 	{"activity-property", func(x ap.Item) ap.Item {
-		a := &ap.Activity{ID: "https://example.com/a", Type: ap.LikeType, Object: x, Target: x, CC: ap.ItemCollection{x, ap.IRI("https://example.com/i")}}
-		if x != nil {
-			a.Actor = x
-		}
-		return a
+		return c20Fill(&ap.Activity{ID: "https://example.com/a", Type: ap.LikeType}, x)
 	}},
 	{"collection-member", func(x ap.Item) ap.Item {
-		return &ap.OrderedCollection{ID: "https://example.com/c", Type: ap.OrderedCollectionType, OrderedItems: ap.ItemCollection{x, c20Valid()}, First: x}
+		return c20Fill(&ap.OrderedCollectionPage{ID: "https://example.com/c", Type: ap.OrderedCollectionPageType}, x)
 	}},
+}
+
+// c20Fill stores x in EVERY item-typed property of host (single-item properties directly, list properties as [x, iri]).
+func c20Fill(host ap.Item, x ap.Item) ap.Item {
+	e := reflect.ValueOf(host).Elem()
+	st := universe.ByName(e.Type().Name())
+	for _, f := range st.ItemFields() {
+		fv := e.Field(f.Index)
+		if f.Kind == universe.KItems {
+			fv.Set(reflect.ValueOf(ap.ItemCollection{x, ap.IRI("https://example.com/i")}))
+		} else if x != nil {
+			fv.Set(reflect.ValueOf(x).Convert(fv.Type()))
+		}
+	}
+	return host
 }
 
 func init() {
@@ -268,7 +293,7 @@ func init() {
 		ID: "C20", Name: "nil-items", Level: "model_checking",
 		Rule: "complete matrix: every helper of the table (predicates, ItemsEqual in both slots, On*/To* incl. OnCollectionIntf and the generic On/To, Flatten*, CleanRecipients, DerefItem, ItemOrderTimestamp, " +
 			"CopyItemProperties, CollectionPath.IRI/Of/AddTo, both encoders and the JSON item writers, Contains/Append/Remove/ItemsMatch on the containers) x 15 nil kinds (untyped nil + nil pointer of each struct) x " +
-			"5 positions (the argument itself, member of a list, property of an Object / Activity / collection); every case runs in isolation; non-trivial = typed nil",
+			"7 positions (the argument itself, member of a list, every item property of an Object / Actor / Question / Activity / collection page at once); every case runs in isolation; non-trivial = typed nil",
 		Assumptions: []string{"the helper table is audited against the exported functions of the current tree on every run (gaps are listed in the evidence, not judged)",
 			"at the top position a callback must receive a nil pointer; below it callbacks are only required not to crash"},
 		Bound: func(string) string { return "complete matrix (same in both tiers)" },
